@@ -566,7 +566,8 @@ def c18_body(r, i):
     for p in props:
         p.optional = True if p.kind != "getter" else False
         if r.chance(0.3):
-            p.ty = r.pick(["() => void", "Function", "(() => void) | string", "string", "number"])
+            p.ty = r.pick(["() => void", "Function", "(() => void) | string", "string", "number", "Function | number", "(() => void) | null", "any", "(() => void)",
+                           "NonNullable<(() => void) | null>", "boolean | (() => boolean)"])
     ty = tg.literal(props) if r.chance(0.7) else tg.encode(props, allow_after=False)
     entries = []
     dyn = r.wpick([("static", 7), ("ident", 1), ("spread", 1), ("computed-ident", 1), ("computed-expr", 1), ("computed-tpl", 1), ("computed-tpl-subst", 1),
